@@ -1691,3 +1691,16 @@ GENERATORS.insert(0, ("C09.size.radius", _radius_spellings_beside))
 GENERATORS.insert(0, ("C11.size.radius", _radius_spellings_beside))
 
 GENERATORS.insert(0, ("C12.margin.", _containment_edges))
+
+
+def _relative_radius_spellings(repo, ob, failure):
+    """a relative size in any radius spelling (ellipse r, circle rx) is resolved, never left in the output"""
+    doc = '<svg><rect id="a" xy="10 20" wh="40 30"/><ellipse cxy="#a" r="#a 50%"/><circle cxy="#a" rx="#a 25%"/></svg>'
+    r = run_svgdx(repo, doc, args=("--no-auto-styles",))
+    if r["rc"] == 0 and '="#a' in r["out"]:
+        return {"input": doc, "args": ["--no-auto-styles"], "observed": r["out"].strip()[-150:], "expected": '<ellipse cx="30" cy="35" rx="10" ry="10"/><circle cx="30" cy="35" r="5"/>'}
+    return None
+
+
+GENERATORS.insert(0, ("C09.size_attr.", _relative_radius_spellings))
+GENERATORS.insert(0, ("C11.size_attr.", _relative_radius_spellings))
